@@ -45,15 +45,28 @@ fn run_file(name: &str, text: &str) -> Outcome {
 /// Host of the batched files: the layout phases flip this to the Markdown host whose start-tag
 /// comment goes on for two lines after the tag.
 static MD_HOST: AtomicBool = AtomicBool::new(false);
+/// The end tag's comment shares the line of the last content line.
+static END_SHARED: AtomicBool = AtomicBool::new(false);
 
 fn md_host() -> bool {
     MD_HOST.load(Ordering::Relaxed)
+}
+
+fn end_shared() -> bool {
+    END_SHARED.load(Ordering::Relaxed)
 }
 
 fn with_md_host<T>(f: impl FnOnce() -> T) -> T {
     MD_HOST.store(true, Ordering::Relaxed);
     let out = f();
     MD_HOST.store(false, Ordering::Relaxed);
+    out
+}
+
+fn with_end_shared<T>(f: impl FnOnce() -> T) -> T {
+    END_SHARED.store(true, Ordering::Relaxed);
+    let out = f();
+    END_SHARED.store(false, Ordering::Relaxed);
     out
 }
 
@@ -68,7 +81,7 @@ const COMPANIONS: &[(&str, &str, &[&str])] = &[
 ];
 
 fn new_batch(own: &str) -> Batch {
-    let mut b = Batch::with_host(if md_host() { BatchHost::MdMulti } else { BatchHost::Py });
+    let mut b = Batch::with_host(if md_host() { BatchHost::MdMulti } else if end_shared() { BatchHost::PyEndShared } else { BatchHost::Py });
     let (code, attrs, lines) = COMPANIONS.iter().rev().find(|c| c.0 != own).expect("companion");
     b.companion(code, attrs, lines);
     b
@@ -96,10 +109,29 @@ fn with_flags(input: &Value, f: impl FnOnce()) {
     CRLF.store(input["crlf"].as_bool() == Some(true), Ordering::Relaxed);
     MD_HOST.store(input["md_host"].as_bool() == Some(true), Ordering::Relaxed);
     BOM.store(input["bom"].as_bool() == Some(true), Ordering::Relaxed);
+    END_SHARED.store(input["end_shared"].as_bool() == Some(true), Ordering::Relaxed);
     f();
+    END_SHARED.store(false, Ordering::Relaxed);
     CRLF.store(false, Ordering::Relaxed);
     MD_HOST.store(false, Ordering::Relaxed);
     BOM.store(false, Ordering::Relaxed);
+}
+
+/// The content lines as they stand in the rendered file: with the end tag sharing the last
+/// content line that line is followed by the two blanks that precede the end tag's comment (they
+/// are content). `None`: the sequence cannot be rendered in the current host (a `#` on the last
+/// line would start the comment early).
+fn lines_in_host(lines: &[String]) -> Option<Vec<String>> {
+    let mut v = lines.to_vec();
+    if end_shared() {
+        if let Some(last) = v.last_mut() {
+            if last.contains('#') {
+                return None;
+            }
+            last.push_str("  ");
+        }
+    }
+    Some(v)
 }
 
 fn with_crlf<T>(f: impl FnOnce() -> T) -> T {
@@ -277,7 +309,7 @@ fn combined_phase(own: usize, prop: &'static str, alphabet: &'static [&'static s
 
 const C06_BASE: &[&str] = &["b", "a", "b ", "  a", "ab", "", "2", "10", "9.5", "-3", "2.0", "k=2 x", "k=10 y", "zz", "B", "   ", "z=1 q", "k= w"];
 const C06_EXT: &[&str] = &[
-    "b", "a", "", "é", "z", "Z", "a b", "0", "-0", "1e1", "+2", "k=2", "  k=3 k=1", "k=02 z", "10", "9", "9.5", "\tb", "a\u{a0}", "aa", "k= 5", "\u{3000}",
+    "b", "a", "", "é", "z", "Z", "a b", "0", "-0", "1e1", "+2", "k=2", "  k=3 k=1", "k=02 z", "10", "9", "9.5", "\tb", "a\u{a0}", "aa", "k= 5", "\u{3000}", "k=2 #z", "k=10 #z",
 ];
 
 const C06_LONG: &[&str] = &["2", "10", "", "k=3 z"];
@@ -305,6 +337,10 @@ const C06_PATTERNS: &[Option<&str>] = &[
     // The group takes part in one branch only: a line matching through the other branch is keyed
     // by its whole match.
     Some(r"(?:[a-z]=(?P<value>\d+)|zz)"),
+    // The pattern itself holds the host's comment marker (`#` in the Python host).
+    Some(r"=(?P<value>\d+) #"),
+    // An unnamed capturing group comes before the `value` group.
+    Some(r"([a-z])=(?P<value>\d+)"),
 ];
 
 fn numeric_value(s: &str) -> Option<f64> {
@@ -384,13 +420,14 @@ fn c06_configs() -> Vec<C06Config> {
 }
 
 fn c06_check(lines: &[String], configs: &[C06Config], sink: &Sink) {
-    let input = json!({"lines": lines, "crlf": crlf(), "md_host": md_host(), "bom": bom()});
+    let Some(in_host) = lines_in_host(lines) else { return };
+    let input = json!({"lines": lines, "crlf": crlf(), "md_host": md_host(), "bom": bom(), "end_shared": end_shared()});
     let mut distinct = false;
     for numeric in [false, true] {
         let mut batch = new_batch("keep-sorted");
         let mut expected: Vec<(usize, Option<(usize, usize, usize)>)> = Vec::new(); // (config idx, expected (line, c1, c2))
         for (ci, c) in configs.iter().enumerate().filter(|(_, c)| c.numeric == numeric) {
-            let ks = keys(lines, c.pattern.as_ref());
+            let ks = keys(&in_host, c.pattern.as_ref());
             if numeric && ks.iter().any(|k| numeric_value(&k.text).is_none()) {
                 continue; // non-numeric keys under numeric sort: C13
             }
@@ -568,6 +605,8 @@ pub fn run_c06(cfg: &Cfg, sink: &Arc<Sink>) -> Report {
     report.phase(with_md_host(|| seq_phase("base-alphabet, Markdown host whose start comment goes on after the tag", C06_BASE, cfg.tier.pick(3, 4), cfg, sink, move |lines, sink| c06_check(lines, &c, sink))));
     let c = configs.clone();
     report.phase(with_bom(|| seq_phase("base-alphabet, file starts with a byte order mark", C06_BASE, cfg.tier.pick(2, 3), cfg, sink, move |lines, sink| c06_check(lines, &c, sink))));
+    let c = configs.clone();
+    report.phase(with_end_shared(|| seq_phase("base-alphabet, end tag sharing the last content line", C06_BASE, cfg.tier.pick(3, 4), cfg, sink, move |lines, sink| c06_check(lines, &c, sink))));
     report.phase(combined_phase(0, "C06", C06_BASE, cfg, sink));
     report.phase(conformance_phase("C06", C06_BASE, cfg, sink, render_c06));
     report
@@ -595,7 +634,7 @@ pub fn replay_c06(cfg: &Cfg, input: &Value, sink: &Arc<Sink>) {
 // C07 keep-unique
 // ---------------------------------------------------------------------------------------------
 
-const C07_BASE: &[&str] = &["a", "b", "  a", "a ", "", "id=1 x", "id=1 y", "id=2 x", "zz", "y id=2", "   ", "A", "\u{2003}a\u{a0}", "\u{3000}", "id= q"];
+const C07_BASE: &[&str] = &["a", "b", "  a", "a ", "", "id=1 x", "id=1 y", "id=2 x", "zz", "y id=2", "   ", "A", "\u{2003}a\u{a0}", "\u{3000}", "id= q", "id=1 #z"];
 const C07_PATTERNS: &[Option<&str>] = &[
     None,
     Some(r"id=(?P<value>\d+)"),
@@ -608,6 +647,9 @@ const C07_PATTERNS: &[Option<&str>] = &[
     Some(r"(?P<value>\S+)$"),
     // The group takes part in one branch only: `zz` is keyed by its whole match.
     Some(r"(?:id=(?P<value>\d+)|zz)"),
+    // The pattern holds the host's comment marker; an unnamed group precedes the `value` group.
+    Some(r"id=(?P<value>\d+) #"),
+    Some(r"(i)d=(?P<value>\d+)"),
 ];
 
 fn first_duplicate(keys: &[Key]) -> Option<usize> {
@@ -620,7 +662,8 @@ fn first_duplicate(keys: &[Key]) -> Option<usize> {
 }
 
 fn c07_check(lines: &[String], sink: &Sink) {
-    let input = json!({"lines": lines, "crlf": crlf(), "md_host": md_host(), "bom": bom()});
+    let Some(in_host) = lines_in_host(lines) else { return };
+    let input = json!({"lines": lines, "crlf": crlf(), "md_host": md_host(), "bom": bom(), "end_shared": end_shared()});
     let mut batch = new_batch("keep-unique");
     let mut expected = Vec::new();
     let mut labels = Vec::new();
@@ -631,16 +674,21 @@ fn c07_check(lines: &[String], sink: &Sink) {
             Some(p) => format!("keep-unique={}", quote(p)),
         };
         let re = pat.map(|p| cached_regex(p));
-        let ks = keys(lines, re.as_ref());
+        let ks = keys(&in_host, re.as_ref());
         let idx = batch.block(&attrs, lines);
         let first = batch.blocks[idx].first_content_line;
         nontrivial |= ks.len() >= 2;
         expected.push(first_duplicate(&ks).map(|i| (first + ks[i].line_idx, ks[i].col_start, ks[i].col_end)));
-        labels.push(match pat { None => "none", Some(p) if p.ends_with("\\w") => "group-inside-longer-match", Some(p) if p.ends_with("\\d*)") => "group-may-be-empty", Some(p) if p.ends_with('$') => "end-anchored", Some(p) if p.ends_with("|zz)") => "group-in-one-branch", Some(p) if p.contains("value") => "group", Some(p) if p.starts_with('^') => "anchored", _ => "plain" });
+        labels.push(match pat { None => "none", Some(p) if p.ends_with("\\w") => "group-inside-longer-match", Some(p) if p.ends_with("\\d*)") => "group-may-be-empty", Some(p) if p.ends_with('$') => "end-anchored", Some(p) if p.ends_with("|zz)") => "group-in-one-branch", Some(p) if p.ends_with(" #") => "comment-marker-in-pattern", Some(p) if p.starts_with("(i)") => "unnamed-group-first", Some(p) if p.contains("value") => "group", Some(p) if p.starts_with('^') => "anchored", _ => "plain" });
     }
+    // A repeated, bare `keep-unique` after one with a regex: the last one wins, no regex.
+    let idx = batch.block("keep-unique=\"id=(?P<value>\\d+)\" keep-unique", lines);
+    let ks = keys(&in_host, None);
+    expected.push(first_duplicate(&ks).map(|i| (batch.blocks[idx].first_content_line + ks[i].line_idx, ks[i].col_start, ks[i].col_end)));
+    labels.push("bare-duplicate-attribute");
     // Also the empty-attribute spelling.
     let idx = batch.block("keep-unique=\"\"", lines);
-    let ks = keys(lines, None);
+    let ks = keys(&in_host, None);
     expected.push(first_duplicate(&ks).map(|i| (batch.blocks[idx].first_content_line + ks[i].line_idx, ks[i].col_start, ks[i].col_end)));
     labels.push("empty");
 
@@ -703,6 +751,7 @@ pub fn run_c07(cfg: &Cfg, sink: &Arc<Sink>) -> Report {
     report.phase(with_crlf(|| seq_phase("base-alphabet, CRLF line ends", C07_BASE, cfg.tier.pick(3, 4), cfg, sink, c07_check)));
     report.phase(with_md_host(|| seq_phase("base-alphabet, Markdown host whose start comment goes on after the tag", C07_BASE, cfg.tier.pick(3, 4), cfg, sink, c07_check)));
     report.phase(with_bom(|| seq_phase("base-alphabet, file starts with a byte order mark", C07_BASE, cfg.tier.pick(2, 3), cfg, sink, c07_check)));
+    report.phase(with_end_shared(|| seq_phase("base-alphabet, end tag sharing the last content line", C07_BASE, cfg.tier.pick(3, 4), cfg, sink, c07_check)));
     report.phase(combined_phase(1, "C07", C07_BASE, cfg, sink));
     report.phase(conformance_phase("C07", C07_BASE, cfg, sink, render_c07));
     report
@@ -731,18 +780,20 @@ pub fn replay_c07(cfg: &Cfg, input: &Value, sink: &Arc<Sink>) {
 // ---------------------------------------------------------------------------------------------
 
 // The last line holds a lone carriage return in its middle (not a line end; `.` matches it).
-const C08_BASE: &[&str] = &["abc", "ab1", "  abc", "abc  ", "", "   ", "x1y", "1", "xy", "yx", "  x  ", "é", "\u{3000}", "\u{2003}abc\u{a0}", "x\ry"];
-const C08_PATTERNS: &[&str] = &["^[a-z]+$", "[0-9]", "^x", "y$", r"^\S+$", "x.y"];
+const C08_BASE: &[&str] = &["abc", "ab1", "  abc", "abc  ", "", "   ", "x1y", "1", "xy", "yx", "  x  ", "é", "\u{3000}", "\u{2003}abc\u{a0}", "x\ry", "x#y"];
+// The last pattern is the host's comment marker itself.
+const C08_PATTERNS: &[&str] = &["^[a-z]+$", "[0-9]", "^x", "y$", r"^\S+$", "x.y", "#"];
 
 fn c08_check(lines: &[String], sink: &Sink) {
-    let input = json!({"lines": lines, "crlf": crlf(), "md_host": md_host(), "bom": bom()});
+    let Some(in_host) = lines_in_host(lines) else { return };
+    let input = json!({"lines": lines, "crlf": crlf(), "md_host": md_host(), "bom": bom(), "end_shared": end_shared()});
     let mut batch = new_batch("line-pattern");
     let mut expected = Vec::new();
     for p in C08_PATTERNS {
         let re = cached_regex(p);
         let idx = batch.block(&format!("line-pattern={}", quote(p)), lines);
         let first = batch.blocks[idx].first_content_line;
-        let exp = lines.iter().enumerate().find_map(|(i, l)| {
+        let exp = in_host.iter().enumerate().find_map(|(i, l)| {
             let (t, c1, c2) = trimmed(l)?;
             if re.is_match(&t) { None } else { Some((first + i, c1, c2)) }
         });
@@ -799,6 +850,7 @@ pub fn run_c08(cfg: &Cfg, sink: &Arc<Sink>) -> Report {
     report.phase(with_crlf(|| seq_phase("base-alphabet, CRLF line ends", C08_BASE, cfg.tier.pick(3, 4), cfg, sink, c08_check)));
     report.phase(with_md_host(|| seq_phase("base-alphabet, Markdown host whose start comment goes on after the tag", C08_BASE, cfg.tier.pick(3, 4), cfg, sink, c08_check)));
     report.phase(with_bom(|| seq_phase("base-alphabet, file starts with a byte order mark", C08_BASE, cfg.tier.pick(2, 3), cfg, sink, c08_check)));
+    report.phase(with_end_shared(|| seq_phase("base-alphabet, end tag sharing the last content line", C08_BASE, cfg.tier.pick(3, 4), cfg, sink, c08_check)));
     report.phase(combined_phase(2, "C08", C08_BASE, cfg, sink));
     report.phase(conformance_phase("C08", C08_BASE, cfg, sink, render_c08));
     report
